@@ -106,7 +106,7 @@ def check(ctx, rep):
                 if v[0] == "agg" and v[2] == "server::SrpServer":
                     good = any(util.is_call(canon(ctx, se, o), "key::ReconnectData::randomized") for o in v[4])
         rep.check(good, "use-site", "server::SrpProof::into_server", "initial server challenge", "SrpServer is created with ReconnectData::randomized()", "the new session's reconnect challenge is not a fresh ReconnectData::randomized()")
-        se = ctx.wrap.run("client::SrpClientChallenge::new")
+        se = ctx.api.run("client::SrpClientChallenge::new")
         good = False
         if se is not None:
             r = strip(se.ret)
